@@ -1,6 +1,7 @@
 """Regenerates MANIFEST.json from the table below; every property without a check is listed under not_applicable."""
 import json
 CLAIMS = {
+ 'C02': ('proof', 'frame obligations over every function of the seven packages (about 7000): no write to state that outlives a call outside construction (F1), parameter mutation only on call-local objects (F2), no ambient reads and the decimal context established at every number-parser entry (F3), no dynamic features (FX); plus the ModelFactory cache contracts (cached vs fresh model, C17). The step from frames to histories and schedules (no persistent writes => every result is a function of the arguments and of immutable models => order, cache warmth and thread are irrelevant and concurrent readers cannot race) is a pen-and-paper lemma', 'the frame analysis is syntactic with name-based call resolution; results of calls are treated as fresh; C-level state inside the regex module assumed transparent; no interleaving is executed'),
  'C06': ('proof', 'contracts on the glue from regex groups to TIMEX/value for absolute dates (match_to_date, generate_dates, safe_create_*, is_valid_date, format_date, luis_date): with an explicit 4-digit year the TIMEX and both values are that date and do not depend on the reference', 'which layouts the date regexes accept and which group receives which substring (regex layer) is assumed; culture tables month_of_year/day_of_month abstracted to their ranges'),
  'C07': ('proof', 'contracts on match_to_time (24h and 12h+am/pm incl. hour 0), to_pm (second reading twelve hours later), merge_date_and_time (date + time composition), time formatters', 'time regexes and am/pm descriptor regexes are environment values; prefix/suffix adjusters absent; sub-parsers in merge_date_and_time abstracted by their contracts'),
  'C08': ('proof', 'contracts on DateUtils.this/next/last (requested ISO weekday in the current/following/preceding ISO week, time kept) and AgoLaterUtil.get_date_result (R +- N days/weeks/hours/minutes/seconds)', 'month/year arithmetic depends on the missing datedelta package and is not claimed; phrase classification by regex assumed'),
